@@ -83,6 +83,8 @@ class SrcWorld(World):
             req.source_file = Path("in/nonexistent.bin")
         elif variant == "unknown":
             req.destination_id = UnsignedByteField(77, c["idw_d"])
+        elif variant == "valid_wide":  # same destination entity, id given with a wider field
+            req.destination_id = UnsignedByteField(2, 2 * c["idw_d"])
         return req
 
     # ---- events ------------------------------------------------------------------------------
